@@ -341,7 +341,7 @@ func ruleC02Exh(p *Prog, r *Res) {
 				r.Check(okSym && okField, rule, key, p.Pos(lit), "reads "+setString(fa)+" symmetrically",
 					fmt.Sprintf("comparator for %s must compare stream field %s of both operands; reads a:%s b:%s %s", name, wf, setString(fa), setString(fb), extra))
 				// orientation: the ordering expression must have a's value on the left of '<' (or a.Before(b))
-				if ok, why := comparatorOrientation(info, lit, params[0], params[1]); !ok {
+				if ok, why := comparatorOrientation(p, info, lit, params[0], params[1]); !ok {
 					r.Bad(rule, key+" orientation", p.Pos(lit), why)
 				} else {
 					r.OkTrivial(rule, key+" orientation", p.Pos(lit), why)
@@ -506,17 +506,15 @@ func ruleC02Exh(p *Prog, r *Res) {
 // cmp := bytes.Compare(ah, bh).
 // comparatorDelegate: the comparator literal is `return h(a, b, …)` (or h(b, a, …)) for a declared function h of the
 // same package; returns h, and whether the operands are passed in order.
-var comparatorDelegate func(info *types.Info, lit *ast.FuncLit, a, b types.Object) (h *Fn, inOrder, ok bool)
-
-func comparatorOrientation(info *types.Info, lit *ast.FuncLit, a, b types.Object) (bool, string) {
-	if comparatorDelegate != nil {
-		if h, inOrder, ok := comparatorDelegate(info, lit, a, b); ok {
+func comparatorOrientation(p *Prog, info *types.Info, lit *ast.FuncLit, a, b types.Object) (bool, string) {
+	if p != nil {
+		if h, inOrder, ok := p.comparatorDelegate(info, lit, a, b); ok {
 			if !inOrder {
 				return false, "the comparator passes (b, a) to " + h.Key() + ": the order is reversed"
 			}
 			pa, pb := paramObj(h, 0), paramObj(h, 1)
 			if pa != nil && pb != nil && h.Decl != nil {
-				ok2, why := comparatorOrientation(h.Pkg.TypesInfo, &ast.FuncLit{Type: h.Decl.Type, Body: h.Decl.Body}, pa, pb)
+				ok2, why := comparatorOrientation(p, h.Pkg.TypesInfo, &ast.FuncLit{Type: h.Decl.Type, Body: h.Decl.Body}, pa, pb)
 				return ok2, "delegates to " + h.Key() + ": " + why
 			}
 		}
